@@ -27,8 +27,10 @@ MODELS = {
     "one": (["A", "C"], {"A": [], "C": ["A"]}),
     "two": (["A", "B", "C"], {"A": [], "B": [], "C": ["B", "A"]}),
     "chain": (["A", "B", "C"], {"A": [], "B": ["A"], "C": ["B"]}),
+    # three parents declared in an order that needs a 3-cycle to sort (D, A, B -> A, B, D)
+    "three": (["A", "B", "D", "C"], {"A": [], "B": [], "D": [], "C": ["D", "A", "B"]}),
 }
-CARDS = [dict(A=2, B=2, C=2), dict(A=2, B=3, C=2), dict(A=3, B=2, C=3)]
+CARDS = [dict(A=2, B=2, C=2, D=2), dict(A=2, B=3, C=2, D=2), dict(A=3, B=2, C=3, D=2)]
 
 
 class _F(float):
@@ -81,6 +83,8 @@ def scenarios(tier, seed):
                 if not sup:
                     continue
                 for est in ["mle", "k2", "bdeu", "dirichlet_scalar", "dirichlet_array", "fit", "dagfit", "fit_update"]:
+                    if mname == "three" and (est not in ("mle", "bdeu", "fit_update", "dirichlet_array") or sup_name not in ("full", "sparse")):
+                        continue
                     k += 1
                     declared = ["data", "extra", "perm"][k % 3]
                     if sup_name == "no_childstate" and declared == "data" and est != "mle":
@@ -246,7 +250,7 @@ def run(desc, M):
     names = [f"w{i}" for i in range(len(sup))] if est != "fit_update" else []
     extra = []
     if est == "bdeu":
-        extra = ["ess"]
+        extra = ["ess", "ess2"]
     elif est == "dirichlet_scalar":
         extra = ["pc"]
     elif est == "dirichlet_array":
@@ -336,11 +340,14 @@ def run(desc, M):
             for v in nodes:
                 pseudo[v] = lambda a: M.const(1)
         elif est == "bdeu":
+            # ONE estimator object, a different equivalent sample size for every other node (equally shaped nodes included)
             ess = M.sym("ess", pos=True)
-            cpds = [e.estimate_cpd(v, prior_type="BDeu", equivalent_sample_size=M.impl(ess), weighted=True) for v in nodes]
+            ess2 = M.sym("ess2", pos=True)
+            ess_of = {v: (ess if i % 2 == 0 else ess2) for i, v in enumerate(nodes)}
+            cpds = [e.estimate_cpd(v, prior_type="BDeu", equivalent_sample_size=M.impl(ess_of[v]), weighted=True) for v in nodes]
             for v in nodes:
                 q = int(np.prod([card_of(p) for p in parents[v]] or [1]))
-                pseudo[v] = (lambda a, v=v, q=q: ess / (card_of(v) * q))
+                pseudo[v] = (lambda a, v=v, q=q: ess_of[v] / (card_of(v) * q))
         elif est == "dirichlet_scalar":
             pc = M.sym("pc", pos=True)
             cpds = [e.estimate_cpd(v, prior_type="dirichlet", pseudo_counts=M.impl(pc), weighted=True) for v in nodes]
